@@ -47,6 +47,8 @@ type Engine struct {
 	ownedTypes   map[string]bool
 	srcCache     map[string][]string
 	loadErrs     []string
+	constVars    map[types.Object]ast.Expr // package-level vars with a constant initialiser, never assigned
+	constVarInfo map[types.Object]*types.Info
 }
 
 func newEngine(repo, verif string) *Engine {
@@ -145,6 +147,7 @@ func (eng *Engine) load(short []string) error {
 		sp := shortPkg(p.PkgPath)
 		eng.pkgs[sp] = p
 		eng.indexFuncs(sp, p)
+		eng.indexConstVars(p)
 	}
 	if len(eng.loadErrs) > 0 {
 		return fmt.Errorf("package load errors: %s", strings.Join(eng.loadErrs, "; "))
@@ -180,6 +183,68 @@ func (eng *Engine) indexFuncs(sp string, p *packages.Package) {
 				})
 			}
 		}
+	}
+}
+
+// indexConstVars finds package-level variables that are initialised once with a
+// constant expression and never assigned or address-taken in non-test code.
+func (eng *Engine) indexConstVars(p *packages.Package) {
+	if eng.constVars == nil {
+		eng.constVars = map[types.Object]ast.Expr{}
+		eng.constVarInfo = map[types.Object]*types.Info{}
+	}
+	cands := map[types.Object]ast.Expr{}
+	for _, f := range p.Syntax {
+		for _, d := range f.Decls {
+			gd, ok := d.(*ast.GenDecl)
+			if !ok || gd.Tok != token.VAR {
+				continue
+			}
+			for _, sp := range gd.Specs {
+				vs := sp.(*ast.ValueSpec)
+				if len(vs.Values) != len(vs.Names) {
+					continue
+				}
+				for i, n := range vs.Names {
+					if tv, ok := p.TypesInfo.Types[vs.Values[i]]; ok && tv.Value != nil {
+						if o := p.TypesInfo.Defs[n]; o != nil {
+							cands[o] = vs.Values[i]
+						}
+					}
+				}
+			}
+		}
+	}
+	if len(cands) == 0 {
+		return
+	}
+	for _, f := range p.Syntax {
+		ast.Inspect(f, func(nd ast.Node) bool {
+			mark := func(e ast.Expr) {
+				if id, ok := ast.Unparen(e).(*ast.Ident); ok {
+					if o := p.TypesInfo.Uses[id]; o != nil {
+						delete(cands, o)
+					}
+				}
+			}
+			switch x := nd.(type) {
+			case *ast.AssignStmt:
+				for _, l := range x.Lhs {
+					mark(l)
+				}
+			case *ast.IncDecStmt:
+				mark(x.X)
+			case *ast.UnaryExpr:
+				if x.Op == token.AND {
+					mark(x.X)
+				}
+			}
+			return true
+		})
+	}
+	for o, e := range cands {
+		eng.constVars[o] = e
+		eng.constVarInfo[o] = p.TypesInfo
 	}
 }
 
